@@ -418,7 +418,7 @@ pub fn run(tier: &str, replay: Option<&str>) -> i32 {
 
 fn run_server_slice(tier: &str) -> Result<Value, String> {
     let bin = std::env::var("SRVMC_BIN").map_err(|_| "SRVMC_BIN not set (run through bin/check)".to_string())?;
-    let out = std::process::Command::new(&bin).arg("C13S").arg(tier).output().map_err(|e| format!("cannot run {bin}: {e}"))?;
+    let out = vcore::par::output_retry(std::process::Command::new(&bin).arg("C13S").arg(tier)).map_err(|e| format!("cannot run {bin}: {e}"))?;
     let stdout = String::from_utf8_lossy(&out.stdout);
     let line = stdout.lines().find_map(|l| l.strip_prefix("C13S-RESULT ")).ok_or_else(|| format!("no result line; exit {:?}; stderr: {}", out.status.code(), String::from_utf8_lossy(&out.stderr)))?;
     serde_json::from_str(line).map_err(|e| format!("bad result: {e}"))
